@@ -381,6 +381,234 @@ def relative_mutations(rng, secs):
     return out
 
 
+# ---------------------------------------------------------------------------------------------------------
+# variables of `[supervisord] environment=` used as %(ENV_x)s in the options of the other sections.
+# The reference for such a file is its LITERAL TWIN: the same file with every %(ENV_x)s whose x the file's own
+# [supervisord] section defines written out as the defined value.  The twin is parsed by a ServerOptions that never
+# saw another file, so "the file's options" do not depend on how (or when) the implementation looks its variables up.
+# ---------------------------------------------------------------------------------------------------------
+_ENV_PAIR = re.compile(r'^([A-Za-z_][A-Za-z0-9_]*)="([A-Za-z0-9_./-]*)"$')
+
+
+def sup_variables(secs):
+    """{name: value} of a [supervisord] environment= made of plain NAME="value" items only; None otherwise"""
+    if is_raw(secs):
+        return None
+    sup = [opts for s, opts in secs if s == 'supervisord']
+    if len(sup) != 1 or [k for k, _ in sup[0]].count('environment') != 1:
+        return None
+    pairs = {}
+    for item in dict(sup[0])['environment'].split(','):
+        m = _ENV_PAIR.match(item.strip())
+        if not m:
+            return None
+        pairs[m.group(1)] = m.group(2)
+    return pairs
+
+
+def literal_twin(secs):
+    """-> the sections with the file's own variables written out, or None (no such variable is used, or a section
+    redefines one of the names in its own environment=)"""
+    pairs = sup_variables(secs)
+    if not pairs:
+        return None
+    out, n = [], 0
+    for s, opts in secs:
+        if s in ('supervisord', 'include'):
+            out.append((s, opts)); continue
+        new = []
+        for k, v in opts:
+            if k == 'environment' and any(re.search(r'(^|[\s,])%s\s*=' % re.escape(name), v) for name in pairs):
+                return None
+            for name, val in pairs.items():
+                ref = '%%(ENV_%s)s' % name
+                if ref in v:
+                    v = v.replace(ref, val); n += 1
+            new.append((k, v))
+        out.append((s, new))
+    return out if n else None
+
+
+def twin_reference(ctx, secs, scratch, tag, include, launch, got, where, inp):
+    """parse the literal twin of `secs` (None when there is none); `got` = the independent parse of the file itself
+    (an Outcome, or None): both must agree -- status and every option of every group"""
+    tw = literal_twin(secs)
+    if tw is None:
+        return None
+    tpath = write_version(tw, scratch, tag + 't', include)
+    with at_cwd(launch):
+        ref = L.parse_with(L.make_options(L.ENV_VARS), tpath, reread=True)
+    ctx.count('literal-twin:' + ref.status.split(' ')[0])
+    if got is not None:
+        if (got.status == 'ok') != (ref.status == 'ok'):
+            if ref.status == 'ok':
+                ctx.violation('parsable-file-not-reread:variables-of-the-file', '%s: the file is rejected (%s: %s) although it is accepted with its own '
+                              '[supervisord] environment variables written out' % (where, got.status, got.message[:160]), inp)
+            else:
+                ctx.violation('unparsable-file-not-CANT_REREAD:variables-of-the-file', '%s: the file is accepted although it is rejected (%s) with its own '
+                              '[supervisord] environment variables written out' % (where, ref.message[:160]), inp)
+        elif ref.status == 'ok':
+            a, b = got.options.process_group_configs, ref.options.process_group_configs
+            if [g.name for g in a] != [g.name for g in b] or any(exact_differs(x, y) for x, y in zip(a, b)):
+                bad = [y.name for x, y in zip(a, b) if x.name == y.name and exact_differs(x, y)]
+                ctx.violation('options-not-the-files:variables-of-the-file', '%s: read by a fresh daemon, the groups %r do not have the options the file gives them '
+                              'through its [supervisord] environment variables: %r' % (
+                                  where, bad or [g.name for g in a], {y.name: differing(x, y)[:4] for x, y in zip(a, b) if y.name in bad}), inp)
+    return ref
+
+
+ENV_OS_NUM, ENV_OS_STR = 'VERIF_N', 'VERIF_A'          # also in the daemon's own environment (config_l1.ENV_VARS)
+ENV_NUM_VALUES = ['1', '2', '3', '5', '10', '30']
+ENV_STR_VALUES = ['blue', 'green', 'v1.2', 'a-b', 'alpha']
+ENV_NUM_SITES = {'program': ['stopwaitsecs', 'startretries', 'startsecs', 'priority', 'stdout_logfile_backups', 'stderr_logfile_backups'],
+                 'eventlistener': ['stopwaitsecs', 'startretries', 'priority', 'buffer_size', 'stderr_logfile_backups'],
+                 'fcgi-program': ['stopwaitsecs', 'startsecs', 'priority', 'socket_backlog'],
+                 'group': ['priority']}
+ENV_STR_SITES = {'program': ['command', 'environment', 'stdout_logfile', 'stderr_logfile'], 'eventlistener': ['command', 'environment', 'stderr_logfile'],
+                 'fcgi-program': ['command', 'environment', 'stderr_logfile'], 'group': []}
+
+
+def set_opt(opts, k, v):
+    opts = list(opts)
+    for i, (kk, _) in enumerate(opts):
+        if kk == k:
+            opts[i] = (k, v)
+            return opts
+    return opts + [(k, v)]
+
+
+def env_apply(base, edits, variables, used=None):
+    """base + the edits whose variable is in `used` (default: in `variables`) + [supervisord] environment= defining `variables`"""
+    secs = [(s, list(o)) for s, o in base]
+    for si, k, v, var in edits:
+        if var in (variables if used is None else used):
+            secs[si] = (secs[si][0], set_opt(secs[si][1], k, v))
+    for si, (s, o) in enumerate(secs):
+        if s == 'supervisord':
+            o = [(k, v) for k, v in o if k != 'environment']
+            if variables:
+                o.append(('environment', ','.join('%s="%s"' % kv for kv in variables.items())))
+            secs[si] = (s, o)
+    return secs
+
+
+def envify(rng, base, nsites=6):
+    """-> (variables {name: value}, edits [(section index, option, value using %(ENV_name)s, name)]): two to four variables
+    (one numeric and one textual also exist in the daemon's environment with another value) used in section-level options
+    (numbers, numprocs) and in command / environment / log file names of sections of every kind"""
+    variables = {ENV_OS_NUM: rng.choice(ENV_NUM_VALUES), 'VERIF_GRACE': rng.choice(ENV_NUM_VALUES), 'VERIF_TAG': rng.choice(ENV_STR_VALUES)}
+    if rng.random() < 0.6:
+        variables[ENV_OS_STR] = rng.choice(ENV_STR_VALUES)
+    nums = [v for v in variables if v in (ENV_OS_NUM, 'VERIF_GRACE')]
+    strs = [v for v in variables if v not in nums]
+    cand = []
+    for si, (s, opts) in enumerate(base):
+        kind = s.split(':')[0]
+        for k in ENV_NUM_SITES.get(kind, []):
+            cand.append((si, k, 'num'))
+        for k in ENV_STR_SITES.get(kind, []):
+            cand.append((si, k, 'str'))
+    edits, used = [], set()
+    rng.shuffle(cand)
+    # every variable is used at least once
+    for var in nums + strs:
+        for c in cand:
+            if c[2] == ('num' if var in nums else 'str') and (c[0], c[1]) not in used:
+                used.add((c[0], c[1])); edits.append((c, var)); break
+    for c in cand:
+        if len(edits) >= nsites:
+            break
+        if (c[0], c[1]) not in used:
+            used.add((c[0], c[1])); edits.append((c, rng.choice(nums if c[2] == 'num' else strs)))
+    out = []
+    for (si, k, _), var in edits:
+        ref = '%%(ENV_%s)s' % var
+        d = dict(base[si][1])
+        if k == 'command':
+            v = d.get('command', '/bin/cat') + ' --tag=' + ref
+        elif k == 'environment':
+            v = 'VTAG="%s",VMODE="x-%s"' % (ref, ref)
+        elif k.endswith('_logfile'):
+            v = '/tmp/verif_%s_%s.log' % (ref, k[:6])
+        else:
+            v = ref
+        out.append((si, k, v, var))
+    # numprocs through a variable of its own (sections whose process names already carry the number)
+    for si, (s, opts) in enumerate(base):
+        d = dict(opts)
+        if s.split(':')[0] in ('program', 'eventlistener') and 'process_num' in d.get('process_name', '') and 'VERIF_NP' not in variables:
+            variables['VERIF_NP'] = rng.choice(['1', '2'])
+            out.append((si, 'numprocs', '%(ENV_VERIF_NP)s', 'VERIF_NP'))
+    return variables, out
+
+
+def other_value(rng, var, cur):
+    pool = ['1', '2'] if var == 'VERIF_NP' else (ENV_NUM_VALUES if cur.isdigit() else ENV_STR_VALUES)
+    return rng.choice([x for x in pool if x != cur])
+
+
+def envvar_population(ctx, st, rng, nbases, nhist):
+    """[supervisord] environment= variables used as %(ENV_x)s in the other sections, over small files holding every group
+    kind: the unchanged file, a use added, literal value <-> variable, the value of each variable changed, a variable added
+    together with its uses / removed together with them (file pairs, both directions); histories against one daemon:
+    defined but unused -> used -> value changed -> another variable introduced and used, each followed by repeated
+    rereads, update, reread; then a definition removed while still referred to (the file's own variable: CANT_REREAD and nothing
+    changes; an override of a variable of the daemon's environment: the environment's value).  (Found in round 6, repaired in
+    /repo f9f97a7: the names of one read used to survive into the next.)"""
+    for b in range(nbases):
+        base = attr_base(rng, ctx.scratch)
+        if b % 2:
+            base = [x for x in base if not x[0].startswith('fcgi-program:')]
+        variables, edits = envify(rng, base, nsites=rng.choice([4, 6, 9]))
+        own = {k: v for k, v in variables.items() if k not in (ENV_OS_NUM, ENV_OS_STR)}
+        used = env_apply(base, edits, variables)
+        pairs = [('env/unchanged', used, used),
+                 ('env/use-added', env_apply(base, [], variables), used),
+                 ('env/literal-to-variable', literal_twin(used) or used, used)]
+        for var in variables:
+            v2 = dict(variables); v2[var] = other_value(rng, var, variables[var])
+            pairs.append(('env/value-changed:' + ','.join(sorted({k for _, k, _, x in edits if x == var})), used, env_apply(base, edits, v2)))
+        for var in own:
+            less = {k: v for k, v in variables.items() if k != var}
+            pairs.append(('env/variable-added:' + ','.join(sorted({k for _, k, _, x in edits if x == var})), env_apply(base, edits, less), used))
+        # a definition disappears from [supervisord] while the other sections still refer to it: a variable of the file's own
+        # (the file can no longer be parsed), an override of a variable of the daemon's environment (the environment's value counts)
+        for var in variables:
+            less = {k: v for k, v in variables.items() if k != var}
+            what = 'env/os-override-removed:' if var in (ENV_OS_NUM, ENV_OS_STR) else 'env/variable-removed-still-used:'
+            pairs.append((what + ','.join(sorted({k for _, k, _, x in edits if x == var})), used, env_apply(base, edits, less, used=variables)))
+        inc = ()
+        if b % 3 == 2:
+            candi = [i for i, (sn, _) in enumerate(base) if sn != 'supervisord']
+            inc = sorted(rng.sample(candi, rng.randrange(1, len(candi))))
+        for label, a, c in pairs:
+            one_pair(ctx, st, {'sections': a}, label, c, 'e', include=inc)
+            if _done(ctx):
+                return
+            if a is not c:
+                one_pair(ctx, st, {'sections': c}, label + '~rev', a, 'e', include=inc)
+                if _done(ctx):
+                    return
+        hbase = [x for x in base if not x[0].startswith('fcgi-program:')]
+        for _ in range(nhist):
+            hv, he = envify(rng, hbase, nsites=rng.choice([3, 5]))
+            late = rng.choice([k for k in hv if k not in (ENV_OS_NUM, ENV_OS_STR)])
+            early = {k: v for k, v in hv.items() if k != late}
+            var = rng.choice(sorted(early))
+            ch = dict(early); ch[var] = other_value(rng, var, early[var])
+            full = dict(ch); full[late] = hv[late]
+            ctx.count('history-mutation:env/variables')
+            run_history(ctx, st, env_apply(hbase, [], early),
+                        [('reread',), ('write', env_apply(hbase, he, early)), ('reread',), ('reread',),
+                         ('write', env_apply(hbase, he, ch)), ('reread',), ('update', []), ('reread',), ('reread',),
+                         ('write', env_apply(hbase, he, full)), ('reread',), ('reread',), ('update', ['all']), ('reread',),
+                         ('write', env_apply(hbase, he, ch, used=full)), ('reread',), ('update', []), ('reread',),
+                         ('write', env_apply(hbase, he, {k: v for k, v in full.items() if k not in (ENV_OS_NUM, ENV_OS_STR)}, used=full)),
+                         ('reread',), ('reread',), ('update', []), ('reread',)], 'h')
+            if _done(ctx):
+                return
+
+
 def cap_numprocs(secs, cap=8):
     """C14 explores large numprocs; here a parse happens 4-8 times per case, so the random files keep at most `cap` processes per section"""
     return [(s, [(k, str(min(int(v), cap)) if k == 'numprocs' and v.strip().isdigit() else v) for k, v in o]) for s, o in secs]
@@ -735,8 +963,11 @@ def one_pair(ctx, st, cfg, label, newsecs, tag, include=()):
     dirs = model_dirs(ctx.scratch)
     path = write_version(cfg['sections'], ctx.scratch, tag, include)
     o = L.make_options(L.ENV_VARS)
+    base_env = dict(o.environ_expansions)      # the daemon's own environment: what every read of the file starts with
     with at_cwd(launch):
         a = L.parse_with(o, path, reread=True)
+    # (a file using its own [supervisord] variables: what a daemon reads at its start is what the literal twin says)
+    twin_reference(ctx, cfg['sections'], ctx.scratch, tag, include, launch, a, 'first read', {'label': label + '/first-read', 'old': cfg['sections'], 'new': cfg['sections']})
     if a.status != 'ok':
         ctx.count('old-file-rejected'); return
     old_toks = L.model_tokens(a, dirs)
@@ -751,7 +982,10 @@ def one_pair(ctx, st, cfg, label, newsecs, tag, include=()):
     write_version(newsecs, ctx.scratch, tag, include)
     with at_cwd(launch):
         fresh = L.parse_with(L.make_options(L.ENV_VARS), path, reread=True)      # independent parse of the new file, where the old one was parsed
-    pre_env2 = dict(o.environ_expansions)
+    ref = twin_reference(ctx, newsecs, ctx.scratch, tag, include, launch, fresh, 'new file', inp)
+    if ref is not None:
+        fresh = ref                  # the reference of every monitor below: the file's variables written out
+    pre_env2 = base_env
     st_cls = L._classes()
 
     def reread():
@@ -860,9 +1094,9 @@ def one_pair(ctx, st, cfg, label, newsecs, tag, include=()):
                     kind = 'unchanged-reported-as-changed'
                 ctx.violation(kind + chdir_suffix(), 'changed %r, but the groups whose options differ are %r (differing options: %r)' % (
                     res[1], want_changed, {n: diffs[n][:6] for n in missed + extra}), inp)
-            if label.split('~')[0] in ('unchanged', 'relative/unchanged') and (res[0] or res[1] or res[2]):
+            if label.split('~')[0] in ('unchanged', 'relative/unchanged', 'env/unchanged') and (res[0] or res[1] or res[2]):
                 ctx.violation('unchanged-file-reports-difference' + chdir_suffix(), impl_diff, inp)
-            if not (res[0] or res[1] or res[2]) and label.split('~')[0] in ('unchanged', 'relative/unchanged', 'relative/sections-reordered', 'sections-reordered'):
+            if not (res[0] or res[1] or res[2]) and label.split('~')[0] in ('unchanged', 'relative/unchanged', 'relative/sections-reordered', 'sections-reordered', 'env/unchanged', 'env/literal-to-variable'):
                 # nothing reported: it stays that way however often the daemon is asked
                 with at_cwd(rundir):
                     r2, d2 = reread()
@@ -1055,9 +1289,13 @@ def run_history(ctx, st, secs0, steps, tag='h'):
     events.clear()
     path = write_version(secs0, ctx.scratch, tag)
     o = L.make_options(L.ENV_VARS)
+    base_env = dict(o.environ_expansions)      # the daemon's own environment: what every read of the file starts with
     o.configfile = path
     with at_cwd(launch):             # the daemon starts here ...
-        (kind, r0), toks0, p0 = L.capture_tokens(o, lambda: o.process_config(do_usage=False), dirs)
+        (kind, r0), toks0, p0 = L.capture_tokens(o, lambda: o.process_config(do_usage=False), dirs, base_env)
+    if kind != 'ok':
+        got0 = L.Outcome(); got0.status, got0.message = 'err', str(r0)
+        twin_reference(ctx, secs0, ctx.scratch, tag, (), launch, got0, 'first read', inp)
     if kind != 'ok' or toks0 is None:
         ctx.count('history:start-rejected'); return
     if len({g.name for g in o.process_group_configs}) != len(o.process_group_configs):
@@ -1081,12 +1319,15 @@ def run_history(ctx, st, secs0, steps, tag='h'):
                                              list_digest([g.config for g in sup.process_groups.values()]))
 
     fresh_cache = {}
+    current = {'secs': secs0, 'n': 0}
 
     def fresh():
         """independent parse of the file now on disk (one per written version)"""
         if 'f' not in fresh_cache:
             with at_cwd(launch):
                 f = L.parse_with(L.make_options(L.ENV_VARS), path, reread=True)
+            # (a file using its own [supervisord] variables: the reference is the file with them written out)
+            f = twin_reference(ctx, current['secs'], ctx.scratch, tag, (), launch, f, 'file version %d' % current['n'], inp) or f
             fresh_cache['f'] = f if f.status == 'ok' else None
             fresh_cache['status'] = f.status
         return fresh_cache['f']
@@ -1157,7 +1398,7 @@ def run_history(ctx, st, secs0, steps, tag='h'):
         def __init__(self):
             self.calls, self.added_now, self.toks, self.parser, self.hash_order = [], set(), None, None, False
         def reloadConfig(self):
-            (k, r), self.toks, self.parser = L.capture_tokens(o, rpc_reload, dirs)
+            (k, r), self.toks, self.parser = L.capture_tokens(o, rpc_reload, dirs, base_env)
             if k == 'ok' and hash_order_listed(r):
                 self.hash_order = True
             if k == 'exc':
@@ -1187,6 +1428,7 @@ def run_history(ctx, st, secs0, steps, tag='h'):
         if step[0] == 'write':
             write_version(step[1], ctx.scratch, tag)
             fresh_cache.clear()
+            current['secs'] = step[1]; current['n'] += 1
             synced = False
             converged = False
             continue
@@ -1194,7 +1436,7 @@ def run_history(ctx, st, secs0, steps, tag='h'):
         was_converged, converged = converged, False
         before = table()
         if step[0] == 'reread':
-            (k, r), toks, prs = L.capture_tokens(o, rpc_reload, dirs)
+            (k, r), toks, prs = L.capture_tokens(o, rpc_reload, dirs, base_env)
             if k == 'ok':
                 ans = 'added=%s changed=%s removed=%s' % tuple(names(x) for x in r[0])
                 synced = True
@@ -1416,6 +1658,40 @@ HISTORY_CORPUS += [
 ]
 
 
+def _grace(env, stopwaitsecs='%(ENV_GRACE)s', startretries='3'):
+    return [('supervisord', [('environment', env)] if env else []),
+            ('program:worker', [('command', '/bin/cat'), ('autostart', 'false'), ('stopwaitsecs', stopwaitsecs), ('startretries', startretries)]),
+            ('program:other', [('command', '/bin/cat'), ('autostart', 'false')])]
+
+
+# seeded C15-9: the parser kept a snapshot of the %(ENV_x)s names taken before `[supervisord] environment=` was merged in, so
+# section-level options saw the variables of the previous read of the file
+ENV_CORPUS = [
+    ('env/unchanged', _grace('GRACE="10"'), _grace('GRACE="10"')),
+    ('env/use-added', _grace('GRACE="10"', '10'), _grace('GRACE="10"')),
+    ('env/value-changed:stopwaitsecs', _grace('GRACE="10"'), _grace('GRACE="30"')),
+    ('env/variable-added:startretries', _grace('GRACE="30"'), _grace('GRACE="30",RETRIES="7"', startretries='%(ENV_RETRIES)s')),
+    ('env/value-changed:stopwaitsecs', _grace('VERIF_N="10"', '%(ENV_VERIF_N)s'), _grace('VERIF_N="30"', '%(ENV_VERIF_N)s')),
+    ('env/unchanged', _grace('VERIF_N="10"', '%(ENV_VERIF_N)s'), _grace('VERIF_N="10"', '%(ENV_VERIF_N)s')),
+]
+# found in round 6 (repaired f9f97a7): read_config never forgot the ENV_ names of the previous read
+ENV_CORPUS += [
+    ('env/variable-removed-still-used:stopwaitsecs', _grace('GRACE="10"'), _grace('')),
+    ('env/os-override-removed:stopwaitsecs', _grace('VERIF_N="10"', '%(ENV_VERIF_N)s'), _grace('', '%(ENV_VERIF_N)s')),
+]
+CORPUS += ENV_CORPUS
+HISTORY_CORPUS += [
+    (_grace('GRACE="10",VERIF_N="3"', startretries='%(ENV_VERIF_N)s'),
+     [('reread',), ('write', _grace('VERIF_N="3"', startretries='%(ENV_VERIF_N)s')), ('reread',), ('update', []), ('reread',),
+      ('write', _grace('GRACE="10"', startretries='%(ENV_VERIF_N)s')), ('reread',), ('reread',), ('update', []), ('reread',)]),
+]
+HISTORY_CORPUS += [
+    (_grace('GRACE="10"', '10'), [('reread',), ('write', _grace('GRACE="10"')), ('reread',), ('write', _grace('GRACE="30"')), ('update', []), ('reread',), ('reread',),
+                                  ('write', _grace('GRACE="30",RETRIES="7"', startretries='%(ENV_RETRIES)s')), ('reread',), ('reread',), ('update', []), ('reread',)]),
+    (_grace('VERIF_N="10"', '%(ENV_VERIF_N)s'), [('reread',), ('reread',), ('write', _grace('VERIF_N="30"', '%(ENV_VERIF_N)s'))] + _UPD + [('reread',)]),
+]
+
+
 def unparsable_population(ctx, st, rng, nbases, nfull, per_base_histories):
     """every class of file that cannot be parsed, over small files holding every group kind: as file pairs (answer of
     reloadConfig, of supervisorctl reread and update; nothing changed) and a sample as histories (unparsable version,
@@ -1518,6 +1794,7 @@ def run(ctx):
     attr_population(ctx, st, rng, ctx.n(2, 16), 30 if ctx.tier == 'quick' else 60)
     unparsable_population(ctx, st, rng, ctx.n(2, 12), 0 if ctx.tier == 'quick' else 2, 5)
     relpath_population(ctx, st, rng, ctx.n(2, 18), 6)
+    envvar_population(ctx, st, rng, ctx.n(2, 14), 2)
     for i in range(ctx.n(8, 80)):
         cfg = L.gen_config(rng, ctx.scratch, small=True)
         cfg['include'] = []
@@ -1574,6 +1851,13 @@ def search(ctx):
                     one_pair(ctx, st, {'sections': m}, label + '~rev', secs, 'n')
                     if _done(ctx):
                         return
+    for label, a, c in ENV_CORPUS:
+        one_pair(ctx, st, {'sections': a}, label, c, 'c')
+        if _done(ctx):
+            return
+    envvar_population(ctx, st, rng, 3 if ctx.tier == 'quick' else 10, 2)
+    if _done(ctx):
+        return
     attr_population(ctx, st, rng, 3 if ctx.tier == 'quick' else 12, 20 if ctx.tier == 'quick' else 40)
     if _done(ctx):
         return
